@@ -1,6 +1,9 @@
 (* C19 correspondence: cases as printed by harness/c19.
    One case = one configuration tree (its leaves, as viper sees them) + the level of the global
-   logger + a list of calls of the five real util functions with what each returned. *)
+   logger + a list of calls of the five real util functions with what each returned, followed by
+   any number of later phases on the SAME viper instance: changes of the configuration (no
+   viper.Reset) and then more calls.  Every answer is judged against the configuration as it stood
+   when the call was made. *)
 From Verif Require Export Lib.Base Model.C19_Hierarchy.
 
 Inductive query :=
@@ -15,7 +18,8 @@ Record case := {
   c_id : N;
   c_cfg : config;
   c_deflevel : Z;
-  c_queries : list query
+  c_queries : list query;
+  c_later : list (list change * list query)      (* later phases: changes, then calls *)
 }.
 
 Definition slice_eqb : option (list string) -> option (list string) -> bool :=
@@ -36,8 +40,20 @@ Definition agree_query (c : config) (def : Z) (q : query) : bool :=
   | QPanic _ => false
   end.
 
+(* a predicate on calls, run over the phases of a history: each phase's calls are judged in the
+   world (configuration, logger level) reached by the changes so far *)
+Fixpoint over_later (f : config -> Z -> query -> bool) (w : world)
+         (l : list (list change * list query)) : bool :=
+  match l with
+  | [] => true
+  | (chs, qs) :: l' =>
+      let w' := apply_changes w chs in
+      forallb (f (fst w') (snd w')) qs && over_later f w' l'
+  end.
+
 Definition agree (c : case) : bool :=
-  forallb (agree_query (c_cfg c) (c_deflevel c)) (c_queries c).
+  forallb (agree_query (c_cfg c) (c_deflevel c)) (c_queries c)
+  && over_later agree_query (c_cfg c, c_deflevel c) (c_later c).
 
 (* The property on the OBSERVED value alone: it is the value at the longest prefix of the dotted
    path that has a value (non-empty address list / non-zero duration / non-empty string), else the
@@ -53,7 +69,8 @@ Definition P_query (c : config) (def : Z) (q : query) : bool :=
   end.
 
 Definition P_b (c : case) : bool :=
-  forallb (P_query (c_cfg c) (c_deflevel c)) (c_queries c).
+  forallb (P_query (c_cfg c) (c_deflevel c)) (c_queries c)
+  && over_later P_query (c_cfg c, c_deflevel c) (c_later c).
 
 Definition mismatches (cs : list case) : list N := failing_ids c_id agree cs.
 Definition violations (cs : list case) : list N := failing_ids c_id P_b cs.
@@ -70,4 +87,14 @@ Definition query_ok (c : config) (def : Z) (q : query) : Prop :=
   | QConc s o => resolves str_nonempty to_int64 conc_top k_concurrency c (path_of_string s) o
   | QBool var s o => resolves str_nonempty to_bool (bool_top var) var c (path_of_string s) o
   | QPanic _ => False
+  end.
+
+(* ... and for a history: the calls of every phase are related to the configuration in force after
+   the changes made so far. *)
+Fixpoint later_ok (w : world) (l : list (list change * list query)) : Prop :=
+  match l with
+  | [] => True
+  | (chs, qs) :: l' =>
+      let w' := apply_changes w chs in
+      Forall (query_ok (fst w') (snd w')) qs /\ later_ok w' l'
   end.
